@@ -231,13 +231,56 @@ pub fn spec_verify<C: Ciphersuite, L: Lab<C>>(lab: &mut L, pk: Element<C>, msg: 
     lab.eq_e(g::<C>() * z, r + pk * c, what)
 }
 
-/// all subsets of {0..n-1} with size in [lo, hi], as index vectors
+/// all subsets of {0..n-1} with size in [lo, hi], as index vectors (n <= 16); for larger n a
+/// bounded selection per size: the lexicographically first 200 combinations, the last one, and
+/// one spread evenly over the range
 pub fn subsets(n: usize, lo: usize, hi: usize) -> Vec<Vec<usize>> {
     let mut out = vec![];
-    for mask in 0u32..(1u32 << n) {
-        let k = mask.count_ones() as usize;
-        if k >= lo && k <= hi {
-            out.push((0..n).filter(|i| mask & (1 << i) != 0).collect());
+    if n <= 16 {
+        for mask in 0u32..(1u32 << n) {
+            let k = mask.count_ones() as usize;
+            if k >= lo && k <= hi {
+                out.push((0..n).filter(|i| mask & (1 << i) != 0).collect());
+            }
+        }
+        return out;
+    }
+    for k in lo..=hi.min(n) {
+        if k == 0 {
+            out.push(vec![]);
+            continue;
+        }
+        // lexicographic enumeration, capped
+        let mut c: Vec<usize> = (0..k).collect();
+        let mut count = 0;
+        loop {
+            out.push(c.clone());
+            count += 1;
+            if count >= 200 {
+                break;
+            }
+            // next combination
+            let mut i = k;
+            while i > 0 && c[i - 1] == n - k + i - 1 {
+                i -= 1;
+            }
+            if i == 0 {
+                break;
+            }
+            c[i - 1] += 1;
+            for j in i..k {
+                c[j] = c[j - 1] + 1;
+            }
+        }
+        let last: Vec<usize> = (n - k..n).collect();
+        if !out.contains(&last) {
+            out.push(last);
+        }
+        let spread: Vec<usize> = (0..k).map(|j| j * (n - 1) / k.max(2).saturating_sub(1).max(1)).map(|x| x.min(n - 1)).collect();
+        let mut sp = spread.clone();
+        sp.dedup();
+        if sp.len() == k && !out.contains(&sp) {
+            out.push(sp);
         }
     }
     out
